@@ -22,6 +22,7 @@ an edge is `Config.costOf c e`, the floor applied to the C07 formula of the edge
 import Compass.Proofs.SearchOpt
 import Compass.Proofs.SearchRoute
 import Compass.Proofs.ConfigUniform
+import Compass.Proofs.ConfigAdmissible
 
 namespace Compass
 namespace C02
@@ -230,6 +231,28 @@ theorem config_edge_oriented_route_least_cost (c : Config α) (h : c.EdgeLocal) 
   _root_.Compass.config_edge_oriented_route_least_cost c h hwf source tgt sched r e1 e2 h1 h2 hne
     hnadj hadm hrun
 
+/-- **`estimate_admissible`** (distance model): sum aggregation, rates in use linear and
+non-decreasing (the property's list `zero / raw / factor ≥ 0 / combined`, no offset:
+`CostModel.rates_of_offsetFree`), weights, surcharges, lengths ≥ 0, weight factor in `[0, 1]`, and a
+great-circle table that is ≥ 0, zero at the destination and consistent with the lengths of the
+permitted edges (`Config.DistanceMetric`): the configuration's own estimate is admissible -/
+theorem config_distance_estimate_admissible (c : Config α) (hadj : c.AdjConsistent)
+    {du : DistanceUnit} {t : Nat} (M : c.DistanceMetric du t) :
+    Admissible c.inst c.okOf c.costOf c.hOf t :=
+  c.distance_estimate_admissible hadj M
+
+/-- **A\* on a concrete configuration with its own estimate** (distance model): no premise on the
+heuristic is left -/
+theorem config_astar_distance_route_least_cost (c : Config α) (h : c.EdgeLocal)
+    {du : DistanceUnit} {source t : Nat} (M : c.DistanceMetric du t) (hts : t ≠ source)
+    {sched : List Nat} {r : AlgResult α} (hrun : c.runVertex source (some t) sched = .ok r) :
+    ∃ route, r.routes = [route] ∧ route ≠ [] ∧
+      Walk c.inst c.okOf source (route.map (·.edge)) t ∧
+      (route.map (fun b => b.access + b.traversal)).sum = cost c.costOf (route.map (·.edge)) ∧
+      ∀ es, Walk c.inst c.okOf source es t →
+        (route.map (fun b => b.access + b.traversal)).sum ≤ cost c.costOf es :=
+  _root_.Compass.config_astar_distance_route_least_cost c h M hts hrun
+
 /-! ### Non-vacuity of the generalisation itself: `Example.exInstS` prices malformed states wrongly, so
 it is outside `UniformCost`, and inside `UniformOn` with the invariant "the state has one slot" -/
 
@@ -321,6 +344,15 @@ example : ¬ Admissible ({ exC with wf := none } : Config ℚ).inst ({ exC with 
   revert h3
   simp only [cost]
   decide +kernel
+
+/-- `exA` meets `DistanceMetric`, so its A* run needs no premise on the estimate -/
+example : ∃ r route, exA.runVertex 0 (some 3) [0, 1, 2, 3] = .ok r ∧ r.routes = [route] ∧
+    ∀ es, Walk exA.inst exA.okOf 0 es 3 →
+      (route.map (fun b => b.access + b.traversal)).sum ≤ cost exA.costOf es := by
+  obtain ⟨r, hr⟩ := ok_of_routeEdgesOf exA_run
+  obtain ⟨route, h1, _, _, _, h5⟩ :=
+    config_astar_distance_route_least_cost exA exA_edgeLocal exA_metric (by decide) hr
+  exact ⟨r, route, hr, h1, h5⟩
 
 end
 
